@@ -354,6 +354,9 @@ theorem resourceNameOv_good (fs : Fs) (w : OvView) (hw : OvWf w)
     obtain ⟨hs, hp⟩ := (securePath_eq_some_iff segs path).mp hsec
     subst hp
     simp only [hsec] at h
+    by_cases hraise : pkgRaises fs w (pkgResourcePath w.v.docroot (joinWith '/' segs)) = true
+    · rw [if_pos hraise] at h; simp at h
+    rw [if_neg hraise] at h
     have hg := goodComps_of_proper segs hs
     have hdg := goodComps_of_proper _ (dcomps_proper w hw)
     -- the resource path for a non-empty tuple
@@ -445,9 +448,6 @@ theorem staticViewOv_where (fs : Fs) (w : OvView) (hw : OvWf w)
     (h : (∃ e b, staticViewOv fs w ae slash segs = .file p e b) ∨ staticViewOv fs w ae slash segs = .isADirectory p) :
     Under (pkgRoot w.v) p ∨ ∃ o ∈ w.ovs, InOverride o p := by
   unfold staticViewOv at h
-  by_cases h1 : raisesFirst fs w segs = true
-  · rw [if_pos h1] at h; simp at h
-  rw [if_neg h1] at h
   cases hn : resourceNameOv fs w slash segs with
   | notFound => simp [hn] at h
   | redirect => simp [hn] at h
